@@ -266,13 +266,37 @@ pub fn case(rng: &mut Rng, max_objects: usize) -> String {
     } else {
         Some(*rng.pick(SHAPES))
     };
-    let gm = gen_any(rng, &GenOpts { max_objects, shape, ..Default::default() });
+    let mut gm = gen_any(rng, &GenOpts { max_objects, shape, ..Default::default() });
+    // now and then the mono-streak extreme of taiko: 40-160 hits in single-colour runs (all dons, or
+    // runs of 24), as a native taiko map or as an osu! map to be converted, played with Relax
+    let mono = rng.chance(1, 10);
+    if mono {
+        let n = 40 + rng.below(120);
+        let gap = 90 + rng.below(120);
+        let runs = rng.chance(1, 2);
+        let mode = if rng.chance(1, 2) { 1 } else { 0 };
+        let mut t = format!(
+            "osu file format v14\n\n[General]\nMode: {mode}\n\n[Difficulty]\nHPDrainRate:5\nCircleSize:4\nOverallDifficulty:{}\nApproachRate:8\nSliderMultiplier:1.4\nSliderTickRate:1\n\n[TimingPoints]\n0,{},4,2,0,60,1,0\n\n[HitObjects]\n",
+            rng.below(11),
+            4 * gap
+        );
+        for i in 0..n {
+            let sound = if runs && (i / 24) % 2 == 1 { 8 } else { 0 };
+            t.push_str(&format!("{},{},{},1,{sound},0:0:0:0:\n", 64 + (i * 37) % 384, 64 + (i * 53) % 256, 1000 + i * gap));
+        }
+        gm.text = t;
+        gm.shape = "mono streaks";
+    }
     let Ok(map) = Beatmap::from_bytes(gm.text.as_bytes()) else {
         return Obj::new().str("skip", "io").done();
     };
     let src_mode = map.mode as u8;
-    let target = if src_mode == 0 && rng.chance(1, 2) { rng.below(4) as u8 } else { src_mode };
-    let st = gen_settings(rng, target);
+    let target = if mono { 1 } else if src_mode == 0 && rng.chance(1, 2) { rng.below(4) as u8 } else { src_mode };
+    let mut st = gen_settings(rng, target);
+    if mono && st.repr != 4 {
+        st.bits |= crate::settings::RX;
+        st.bits &= !(1 << 13); // not together with Autopilot
+    }
     let d0 = st.difficulty();
     let Ok(conv) = map.convert_ref(mode_of(target), &d0.clone().inspect().mods) else {
         return Obj::new().str("skip", "convert").done();
